@@ -298,7 +298,22 @@ let run_case (c : sexp) =
     let spec = spec_of (List.hd (find "tree" items)) in
     (match f_backtest dates prices kw ad intpos (f_comm comm) capital spec with
      | Err e -> Printf.printf "BUILD ok\nOP 0 err %s\n" (err_name e)
-     | Ok tr -> Printf.printf "BUILD ok\nOP 0 ok nan\n"; dump_tree tr);
+     | Ok tr -> Printf.printf "BUILD ok\nOP 0 ok nan\n"; dump_tree tr;
+       let want_reports = (try (match find "reports" items with [Atom "1"] -> true | _ -> false) with _ -> false) in
+       if want_reports then begin
+         let root = fst tr in
+         let nm k = Printf.sprintf "n%03d" (int_of_nat k) in
+         let full p = String.concat ">" (List.map nm p) in
+         List.iter (fun (p, col) -> Printf.printf "RV weights:%s %s\n" (full p) (plist pf col)) (f_report_weights root);
+         List.iter (fun (k, col) -> Printf.printf "RV sweights:%s %s\n" (nm k) (plist pf col)) (f_report_security_weights root);
+         List.iter (fun (k, col) -> Printf.printf "RV positions:%s %s\n" (nm k) (plist pf col)) (f_report_positions root);
+         List.iter (fun (k, col) -> Printf.printf "RV outlays:%s %s\n" (nm k) (plist pf col)) (f_report_outlays root);
+         Printf.printf "RV hhi:- %s\n" (plist pf (f_report_hhi root));
+         Printf.printf "RV turnover:- %s\n" (plist pf (f_report_turnover root));
+         Printf.printf "RV resprice:- %s\n" (plist pf (f_report_prices root));
+         List.iteri (fun k tx -> Printf.printf "RT %d %d %s %s %s\n" k (int_of_nat tx.tx_row) (nm tx.tx_id) (pf tx.tx_qty) (pcell tx.tx_price))
+           (f_report_transactions root)
+       end);
     Printf.printf "END\n"
   | L [Atom "sched"; Atom name; a; dates; calls] ->
     let res = f_sched_run (List.map zx (lst dates)) (algo_of a)
